@@ -46,6 +46,9 @@ Definition unpause_arg (s : list Z) : uarg :=
   then if negb (znth 0 s 7 =? 32) || (zlen s =? 8) then UBadFormat else ULabel (zskipn 8 s)
   else UNone.
 
+(* a state label must be a single line (fix: WritingState.SetExperimentStateLabel rejects CR / LF) *)
+Definition single_line (l : list Z) : bool := forallb (fun c => negb ((c =? 10) || (c =? 13))) l.
+
 (* ---------- state ---------- *)
 
 (* one DataPublisher (+ whether its processor has projectors) *)
@@ -152,7 +155,8 @@ Definition write_control (fx : bool) (s : st) (r : wcreq) : st * reply :=
       let go := (set_rs (set_chans s (map (set_pause false) (chans s))) (ws_pause false (rs s)), ROk) in
       match unpause_arg (rq_str r) with
       | UBadFormat => (s, RErr)
-      | ULabel _ => if active (rs s) then go else (s, RErr)   (* SetExperimentStateLabel fails when not active *)
+      | ULabel l => (* SetExperimentStateLabel fails when not active (and, repaired, on a multi-line label) *)
+                    if active (rs s) && (negb fx || single_line l) then go else (s, RErr)
       | UNone => go
       end
   | KStop =>
@@ -162,9 +166,11 @@ Definition write_control (fx : bool) (s : st) (r : wcreq) : st * reply :=
   end.
 
 (* SourceControl.SetExperimentStateLabel + WritingState.SetExperimentStateLabel: empty label rejected by the
-   RPC layer, any label rejected while writing is not active; never changes the writing state *)
-Definition set_label (s : st) (l : list Z) : st * reply :=
-  if zlen l =? 0 then (s, RErr) else if active (rs s) then (s, ROk) else (s, RErr).
+   RPC layer, any label rejected while writing is not active, a multi-line label always (repaired code);
+   never changes the writing state *)
+Definition set_label (fx : bool) (s : st) (l : list Z) : st * reply :=
+  if zlen l =? 0 then (s, RErr)
+  else if active (rs s) && (negb fx || single_line l) then (s, ROk) else (s, RErr).
 
 (* ---------- publishing ---------- *)
 
@@ -215,7 +221,7 @@ Definition step_gen (fx : bool) (s : st) (o : op) : st * obs :=
             | RPanic => (s', OPanic)
             | _ => (s', req_obs s' (is_ok rp) (is_ok rp && is_start (classify (rq_str r))))
             end
-  | LABEL l => let (s', rp) := set_label s l in (s', req_obs s' (is_ok rp) false)
+  | LABEL l => let (s', rp) := set_label fx s l in (s', req_obs s' (is_ok rp) false)
   | PUB ch n =>
       if (0 <=? ch) && (ch <? zlen (chans s)) then
         match nth_error (chans s) (Z.to_nat ch) with
